@@ -12,6 +12,7 @@ struct TrackedStats {
     long ctor = 0, dtor = 0, copies = 0, assigns = 0, compares = 0;
     int next_serial = 1;
     bool windows = true;             // scheduling point inside each access window
+    bool dtor_hb_exempt = false;     // payload lifetime is managed by real (unmodelled) std::shared_ptr reference counts
     // family hooks: called on every read / write of any Tracked (after the HB check)
     void (*hook_read)(const struct Tracked*, uint64_t) = nullptr;
     void (*hook_set)(const struct Tracked*, uint64_t) = nullptr;
@@ -71,7 +72,7 @@ struct Tracked {
         }
         if (rt().active && rt().cur) {
             check_live_addr(this, "payload destructor");
-            if (!sh.hb_exempt) hb_write(sh, "payload (destructor)");
+            if (!sh.hb_exempt && !tstats().dtor_hb_exempt) hb_write(sh, "payload (destructor)");
         }
         canary = DEAD; tstats().dtor++;
     }
